@@ -21,10 +21,12 @@
 
 using namespace mc;
 const char *mc_id = "C14";
-const char *mc_rule = "history BFS: pool of <=5 nodes named from {a,b,unnamed} (one job per name multiset), several initial topologies, every op instance "
-                      "(after/before/gnode_add/node_add/gnode_insert/node_insert x pos{0,1,2,3,-1,-2}, unlink, move, node/list/tree clone, clear, destroy, swap, switch, relink, new) "
-                      "from every reachable state up to the depth bound, states deduplicated up to renaming of equally named pool slots; plus DFS over pairs of small config texts for mpt_parse_node; "
-                      "nontrivial = distinct (state,op) transitions executed on the real code whose pre- or post-state contains at least one linked node, resp. parse cases that merge into a populated root";
+const char *mc_rule = "pool of <=5 real nodes named from {a,b,unnamed} with counting metatypes, one job family per name multiset (a/b interchangeable): "
+                      "snap jobs = EVERY state of the pool (all forests x all root-list partitions x all live subsets, up to renaming equally named slots) is a start state and every op instance "
+                      "(after/before x all pairs, gnode_add/node_add/gnode_insert/node_insert x all pairs x pos{0,1,2,3,-1,-2}, unlink, move, node/list/tree clone, clear, destroy, swap, switch, relink, relink-after-manual-concatenation, new) "
+                      "is executed from each; hist jobs = BFS over histories from hand-made start states (3- and 4-node pools, reaches the same closed state set); "
+                      "parse jobs = DFS over all ordered pairs of config texts with <=3 (quick) / <=4 (thorough) entries, nesting <=3, names {a,b}: parse into the empty root, then merge the second text; "
+                      "nontrivial = distinct (state,op) transitions executed on the real code whose pre- or post-state contains at least one linked node, resp. parse cases that merge a non-empty text into a populated root";
 
 static const int MAXN = 5;
 
